@@ -802,7 +802,7 @@ func c02Unlink(p *Prog, r *Report) {
 // level (success path: every error is nil), whatever control structure builds the filter. The filter is read at
 // the call that passes it to the core.
 func levelTableByEval(p *Prog, fi *FuncInfo, callee string, levels map[string]string) (map[string]levelRow, string, bool) {
-	f := p.FlatOf(fi)
+	f := p.FlatInl(fi)
 	sites := f.CallSites(callee)
 	if len(sites) != 1 {
 		return nil, "", false
